@@ -173,6 +173,8 @@ func (m *SynchronizedMemory) Map(driver core1_0.DeviceDriver, references int, of
 
 	mappedData, result, err := driver.MapMemory(m.memory, offset, size, flags)
 	if err != nil {
+		// The hysteresis may have switched on its extra mapping for this very call, but nothing got mapped
+		m.extraMapping = false
 		return nil, result, err
 	}
 
